@@ -211,8 +211,14 @@ func runOptCase(o *Oracle, d json.RawMessage, oc *Outcome) {
 	s1 := solver.New(c.problem())
 	s1.CuttingPlanes = c.CP
 	obs := watchAppends(s1)
+	an1 := sampleAnalyses(s1, 2, 40, 4)
 	r1 := runOptimal(s1, 0, nil)
 	s1.VerifSetAppendHook(nil)
+	s1.VerifSetAnalyzeHook(nil)
+	if !c.CP {
+		// conflict analysis with the bound constraints among the antecedents (GS.Analyze, analyze_sound_pb)
+		analysisMirror(o, oc, *an1, "solver.Optimal")
+	}
 	judge("solver.Optimal", r1.res.Status, r1.res.Weight, r1.res.Model)
 	boundMirror(o, oc, "solver.Optimal", *obs, r1, coefs, lits)
 	if len(r1.stream) > 1 {
